@@ -314,7 +314,7 @@ PROPS["C14"] = dict(
     rule=("three identically prepared real nodes per case (keyring of two keys, verify-incoming on, label none or 'lbl', peers speaking encryption version 0 or "
           "1, two known members): nothing delivered / one genuine message of each of 21 kinds (ping, anonymous ping, indirect ping, ack, nack, alive new/newer, "
           "suspect, dead, leave, suspicion about the node, user, compound, compressed, CRC; stream push/pull join and anti-entropy, compressed push/pull, user, "
-          "TCP ping) / a modified copy: bit flip or byte substitution anywhere or targeted at version, nonce, body, tag, stream type byte, length prefix, label "
+          "TCP ping) / a modified copy: (also enumerated: every single-bit flip of every sealed message <= 200 bytes, every 24th bit in the quick tier) bit flip or byte substitution anywhere or targeted at version, nonce, body, tag, stream type byte, length prefix, label "
           "header; truncation, extension, splice of two ciphertexts, other/no/added label header, other associated label, foreign key, key removed before "
           "delivery, key installed after sealing, secondary key, plaintext, double sealing. Outcome = state dump + delegate log + decoded replies to the sender "
           "+ health; oracle: outcome(modified) equals outcome(nothing) (a rejected stream may add one generic error reply) or outcome(genuine), and must be "
@@ -325,6 +325,7 @@ PROPS["C14"] = dict(
              quick=dict(shards=16, checks=250, timeout=600),
              thorough=dict(shards=16, checks=8000, timeout=3400)),
         dict(name="visible", kind="plain", run="^(TestCorpusVisible|TestKnownVersionByte)$", quick=dict(shards=1, timeout=300)),
+        dict(name="bitsweep", kind="plain", run="^TestBitSweep$", quick=dict(shards=8, timeout=900), thorough=dict(shards=16, timeout=3400)),
     ],
     assumptions=PUPPET_ASSUMPTIONS + [
         "modifications that change only the encryption-version byte between 0 and 1 are the listed known finding C14-version-byte and are excluded (counted)",
